@@ -352,6 +352,42 @@ func c07Reject(run *ev.Run, sp *layerSpec, seed int64, cs ev.Case) {
 	if sp.Name != "Message" {
 		return
 	}
+	// group-extension and OEM messages carry a body code / enterprise number after the
+	// command (and completion code): every length around their minimum, checksums valid
+	for _, nf := range []byte{0x2c, 0x2d, 0x2e, 0x2f, 0x06, 0x07} {
+		for n := 6; n <= 12; n++ {
+			m := rbytes(r, n)
+			m[1] = nf<<2 | m[1]&3
+			m = fixMsgChecksums(m)
+			min := 7 // rsAddr netFn chk rqAddr rqSeq cmd chk
+			if nf&1 == 1 {
+				min++ // completion code
+			}
+			switch nf &^ 1 {
+			case 0x2c:
+				min++
+			case 0x2e:
+				min += 3
+			}
+			run.Eval(1)
+			var msg ipmi.Message
+			var err error
+			pv, st := safe(func() { err = msg.DecodeFromBytes(exactCopy(m), gopacket.NilDecodeFeedback) })
+			run.Nontrivial(fmt.Sprintf("Message|netfn-min|%#x|%d", nf, n))
+			if pv != nil {
+				run.Violation("C07:Message:panic", fmt.Sprintf("NetFn %#x message of %d bytes %x (checksums valid): %v\n%s", nf, n, m, pv, trimStack(st)), cs, nil)
+				return
+			}
+			if n < min && err == nil {
+				run.Violation("C07:Message:short-body-accepted", fmt.Sprintf("NetFn %#x message of %d bytes %x decoded without error; the shortest message of that kind has %d bytes", nf, n, m, min), cs, nil)
+				return
+			}
+			if n >= min && err != nil {
+				run.Violation("C07:Message:valid-encoding-rejected", fmt.Sprintf("NetFn %#x message of %d bytes %x (checksums valid, minimum %d) rejected: %v", nf, n, m, min, err), cs, nil)
+				return
+			}
+		}
+	}
 	// both checksums wrong at once, with the two errors cancelling modulo 256, and byte transpositions across the two blocks
 	for k := 0; k < 40; k++ {
 		enc, _, _ := sp.Gen(r)
